@@ -734,3 +734,113 @@ func ruleApplyIndexAtomic(e *Engine, r *Report) {
 }
 
 func hasSuffix(s, suf string) bool { return len(s) >= len(suf) && s[len(s)-len(suf):] == suf }
+
+// ruleTaskQueueFIFO (C11): the apply task queue hands tasks out in the order
+// they were added: Add appends, Get returns the element at the read cursor
+// and advances the cursor by one on that path, and the compaction of the
+// backing slice re-bases slice and cursor together.
+func ruleTaskQueueFIFO(e *Engine, r *Report) {
+	add := r.need("(*internal/rsm.TaskQueue).Add")
+	get := r.need("(*internal/rsm.TaskQueue).Get")
+	tasks := r.needField("internal/rsm", "TaskQueue", "tasks")
+	next := r.needField("internal/rsm", "TaskQueue", "next")
+	mu := r.needField("internal/rsm", "TaskQueue", "mu")
+	if add == nil || get == nil || tasks == nil || next == nil || mu == nil {
+		return
+	}
+	// Add: tasks = append(tasks, task)
+	okAdd := false
+	forEachInstr(add, func(in ssa.Instruction) {
+		st, ok := in.(*ssa.Store)
+		if !ok {
+			return
+		}
+		if f, _, ok := fieldOfAddr(st.Addr); !ok || f != tasks {
+			return
+		}
+		c, ok := st.Val.(*ssa.Call)
+		if !ok {
+			return
+		}
+		if b, ok := c.Call.Value.(*ssa.Builtin); ok && b.Name() == "append" && len(c.Call.Args) == 2 && fieldV(tasks)(c.Call.Args[0]) {
+			okAdd = true
+			r.requireLock("TBL-taskqueue-fifo", "TaskQueue.Add appends under the queue mutex", in, mu, 2, "TaskQueue.mu")
+		}
+	})
+	r.check(okAdd, "TBL-taskqueue-fifo", "TaskQueue.Add appends the task at the end", e.pos(add.Pos()), "append(tasks, task)", "Add no longer appends the new task at the end of the queue: tasks (entry batches, snapshot barriers) can be applied out of order")
+	// Get: the returned task is tasks[next], next advances by one before returning it
+	n := 0
+	forEachInstr(get, func(in ssa.Instruction) {
+		ret, ok := in.(*ssa.Return)
+		if !ok || len(ret.Results) < 2 || in.Block() == get.Recover {
+			return
+		}
+		if cb, isC := isConstBool(retOperand(ret, 1)); isC && !cb {
+			return
+		}
+		n++
+		v := stripConv(retOperand(ret, 0))
+		un, ok := v.(*ssa.UnOp)
+		var ia *ssa.IndexAddr
+		if ok {
+			ia, _ = un.X.(*ssa.IndexAddr)
+		}
+		good := ia != nil && fieldV(tasks)(ia.X) && fieldV(next)(ia.Index)
+		r.check(good, "TBL-taskqueue-fifo", "TaskQueue.Get returns the task at the read cursor", e.ipos(in), "tasks[next]", "Get returns something other than tasks[next] ("+e.describeValue(v)+"): tasks are not handed out in arrival order")
+		if good {
+			// the cursor advance lies between the load and the return
+			adv := func(x ssa.Instruction) bool {
+				st, ok := x.(*ssa.Store)
+				if !ok {
+					return false
+				}
+				if f, _, ok := fieldOfAddr(st.Addr); !ok || f != next {
+					return false
+				}
+				b, ok := stripConv(st.Val).(*ssa.BinOp)
+				return ok && b.Op == token.ADD && fieldV(next)(b.X) && intConstV(1)(b.Y)
+			}
+			res := e.findPath(get, un, func(x ssa.Instruction) bool { return x == in }, adv, nil)
+			r.check(!res.Found, "TBL-taskqueue-fifo", "TaskQueue.Get advances the read cursor by one for the task it returns", e.ipos(in), "next++ on the returning path", "a task can be returned without advancing the read cursor by one: it is handed out (and applied) again, or the following task is skipped", res.Trace(e)...)
+		}
+	})
+	r.floor("TBL-taskqueue-fifo", n, 1)
+	// re-basing: wherever tasks is replaced outside Add (GetAll, resize), next is reset to 0 on the same path
+	smPkg := e.pkgTypes("internal/rsm")
+	for _, fn := range e.ScopeFuncs() {
+		if fnPkg(fn) != smPkg || fn == add {
+			continue
+		}
+		forEachInstr(fn, func(in ssa.Instruction) {
+			if !isStoreToField(tasks)(in) || fn.Name() == "NewTaskQueue" {
+				return
+			}
+			zero := func(x ssa.Instruction) bool {
+				st, ok := x.(*ssa.Store)
+				if !ok {
+					return false
+				}
+				f, _, ok := fieldOfAddr(st.Addr)
+				return ok && f == next && intConstV(0)(st.Val)
+			}
+			res := e.findPath(fn, in, isReturn, zero, nil)
+			r.check(!res.Found, "TBL-taskqueue-fifo", "backing slice replaced in "+fname(fn)+" together with a cursor reset", e.ipos(in), "slice and cursor are re-based together", "the task slice is replaced without resetting the read cursor: the cursor then points past (or before) the unprocessed tasks", res.Trace(e)...)
+			// a compacting copy starts at the cursor
+			if st := in.(*ssa.Store); true {
+				if _, isMake := stripConv(st.Val).(*ssa.MakeSlice); isMake {
+					forEachInstr(fn, func(y ssa.Instruction) {
+						c, ok := y.(*ssa.Call)
+						if !ok {
+							return
+						}
+						if b, ok := c.Call.Value.(*ssa.Builtin); !ok || b.Name() != "copy" || len(c.Call.Args) != 2 {
+							return
+						}
+						sl, ok := stripConv(c.Call.Args[1]).(*ssa.Slice)
+						r.check(ok && fieldV(tasks)(sl.X) && sl.Low != nil && fieldV(next)(sl.Low) && sl.High == nil, "TBL-taskqueue-fifo", "compaction in "+fname(fn)+" keeps exactly the unprocessed tail", e.ipos(y), "copy(tasks[next:])", "the compaction of the task queue copies a range other than tasks[next:]: unprocessed tasks are lost or processed tasks come back")
+					})
+				}
+			}
+		})
+	}
+}
